@@ -1,6 +1,7 @@
 import OmplModel.Model.Motion
 import OmplModel.Model.Dubins
 import OmplModel.Model.ReedsShepp
+import OmplModel.Model.Vana
 import OmplModel.Driver.Common
 /-!
 Line-protocol driver for the motion-check model (see harness/motion.cpp for the grammar).
@@ -30,6 +31,8 @@ structure Ctx where
   hi : Float
 
 def pi : Float := Float.ofBits 0x400921FB54442D18
+/-- `boost::math::double_constants::sixth_pi` (VanaStateSpace's default maximum pitch) -/
+def sixthPi : Float := Float.ofBits 0x3FE0C152382D7366
 
 /-- `RealVectorStateSpace::getMaximumExtent`: `e += d*d` per dimension, `sqrt(e)`. -/
 def rvExtent (c : Ctx) : Nat → Float → Float
@@ -114,8 +117,10 @@ structure St where
   car : Option (Bool × Bool) := none
   rho : Float := 1.0
   topFac : Nat := 1
+  isVana : Bool := false
   /-- `space=proj`: the constrained validator; `hintPath` is then the traversal's `reached` and `hintSat` is `isSatisfied(s2)` -/
   constrained : Bool := false
+  tmode : TMode := .proj
   hintSat : Bool := true
   /-- the traversal, when it gives up for geometric reasons, asked about one more candidate (not a state of the motion) -/
   hintExtra : Bool := false
@@ -164,7 +169,9 @@ def init (ts : List String) : Option St :=
     | "rs", [k] => (mk none 3 .reedsShepp).map (fun st => { st with car := some (true, false), rho := _rho, topFac := k })
     | "owen", [_] => mk none 4 .dubins3D
     | "proj", [_] => (mk none 3 .discrete).map (fun st => { st with constrained := true })
-    | "vana", [_] => mk none 5 .dubins3D
+    | "atlas", [_] => (mk none 3 .discrete).map (fun st => { st with constrained := true, tmode := .atlas })
+    | "tb", [_] => (mk none 3 .discrete).map (fun st => { st with constrained := true, tmode := .tb })
+    | "vana", [k] => (mk none 5 .dubins3D).map (fun st => { st with isVana := true, rho := _rho, topFac := k })
     | "vanaowen", [_] => mk none 5 .dubins3D
     | _, _ => none
   | _ => none
@@ -182,7 +189,7 @@ def state? (st : St) (ts : List String) : Option (List Float × List String) :=
   | none => none
 
 def fracBits (j n : Nat) : String :=
-  floatBits (Float.ofInt (fracNum j) / Float.ofNat n)
+  floatBits (Float.ofInt (fracOf j n).1 / Float.ofNat (fracOf j n).2)
 
 def step (st : St) (ts : List String) : St × String :=
   match ts with
@@ -273,10 +280,27 @@ def step (st : St) (ts : List String) : St × String :=
               let ext := (0.0 + 1.0 * rvExtent st.ctx 2 0.0) + 0.5 * pi
               d.map (fun dist => segCount st.topFac dist (ext * st.ctx.frac))
             | _, _, _ => none
-          let n := match st.sp, carN with
-            | some sp, _ => sp.seg st.ctx a b
-            | none, some k => k
-            | none, none => st.hintN
+          -- Vana: path (or its absence) from C14's `OmplModel.Vana.getPath`; distance = path length, or the maximum
+          -- extent when there is no path; extent = 1.0 * |R^4 box (x y z in [lo,hi], pitch in [-pi/6, pi/6])| + 0.5 * pi
+          let vanaNP : Option (Nat × Bool) := match st.isVana, a, b with
+            | true, [x1, y1, z1, p1, t1], [x2, y2, z2, p2, t2] =>
+              let d3 := st.ctx.hi - st.ctx.lo
+              let dp := sixthPi - (-sixthPi)
+              let ext := (0.0 + 1.0 * Float.sqrt ((((0.0 + d3 * d3) + d3 * d3) + d3 * d3) + dp * dp)) + 0.5 * pi
+              let L := ext * st.ctx.frac
+              match OmplModel.Vana.getPath false st.rho (-sixthPi) sixthPi 1e-8
+                  (⟨x1, y1, z1, p1, t1⟩ : OmplModel.Vana.St5 Float) ⟨x2, y2, z2, p2, t2⟩ with
+              | some path => some (segCount st.topFac path.len L, true)
+              | none => some (segCount st.topFac ext L, false)
+            | _, _, _ => none
+          let st := match vanaNP with
+            | some (_, pathOk) => { st with hintPath := pathOk }
+            | none => st
+          let n := match st.sp, carN, vanaNP with
+            | some sp, _, _ => sp.seg st.ctx a b
+            | none, some k, _ => k
+            | none, none, some (k, _) => k
+            | none, none, none => st.hintN
           -- scripted predicate: an index set, or a box evaluated on the model's own interpolants
           let invl : List Nat := match st.box, st.sp with
             | some bx, some sp =>
@@ -291,16 +315,19 @@ def step (st : St) (ts : List String) : St × String :=
           if st.constrained then
             -- ConstrainedMotionValidator (as fixed by F120-F122); n = m + 1 with m traversal states
             let m := n - 1
-            let r := if op == "cm2" then constrained2 st.hintSat m st.hintPath v
-              else constrained3 (op == "cm3") st.hintSat m st.hintPath v
+            let r := if op == "cm2" then constrained2G st.tmode st.hintSat m st.hintPath v
+              else constrained3G st.tmode (op == "cm3") st.hintSat m st.hintPath v
             let st' := { st with cv := st.cv + r.dValid, ci := st.ci + r.dInvalid }
             let vb := if r.verdict then "1" else "0"
             let b01 := fun (x : Bool) => if x then "1" else "0"
             let tail := s!"cnt={st.cv}/{st.ci}->{st'.cv}/{st'.ci} amb=0 reached={b01 st.hintPath} sat={b01 st.hintSat}"
             -- a traversal that visited all its m states, then gave up, looked at one more candidate ('x')
-            let ran := r.queries.filter (fun j => j != n)
-            let gaveUp := st.hintExtra && !st.hintPath && ran.length == m && ran.all v
-            let qs := if gaveUp then (if r.queries.isEmpty then "x" else qstr r.queries ++ ",x") else qstr r.queries
+            let ran := r.queries.filter (fun j => j != n && j != 0)
+            let gaveUp := st.hintExtra && !st.hintPath && ran.length == m && ran.all v && (st.tmode == .proj || v 0)
+            let qs0 := if gaveUp then (if r.queries.isEmpty then "x" else qstr r.queries ++ ",x") else qstr r.queries
+            -- TangentBundleSpaceInformation: after an invalid motion the state handed back is re-projected, and
+            -- project() looks at the validity of the result ('p')
+            let qs := if st.tmode == .tb && op == "cm3" && !r.verdict then (if qs0 == "-" then "p" else qs0 ++ ",p") else qs0
             if op == "cm2" then (st', s!"v={vb} n={n} q={qs} {tail}")
             else
               let lv := if r.wroteSecond then "written" else "untouched"
